@@ -3,6 +3,7 @@ import Lattigo.Props.C01NTT
 import Lattigo.Props.C01Ring
 import Lattigo.Props.C01Tie
 import Lattigo.Props.C01Aut
+import Lattigo.Props.C01CI
 /-!
 # C01 — RNS ring arithmetic equals exact arithmetic in Z_Q[X]/(X^N+1)
 
